@@ -61,6 +61,8 @@ pub enum Want {
     Any,
     /// value or none-or-fail
     ValOrFail(String),
+    /// no output or the empty string
+    NoneOrEmpty,
 }
 
 impl Want {
@@ -81,6 +83,7 @@ impl Want {
             Want::Handle => o.val().map(|v| v.starts_with("handle:")).unwrap_or(false),
             Want::Any => true,
             Want::ValOrFail(v) => o.val() == Some(v.as_str()) || *o == Out::None || o.is_fail(),
+            Want::NoneOrEmpty => *o == Out::None || o.val() == Some(""),
         }
     }
     pub fn show(&self) -> String {
